@@ -1,0 +1,8 @@
+//! Verification seams, compiled only with `--cfg grevm_verif` (never in a normal build).
+//!
+//! The deterministic-simulation harness lives outside this repository. It supplies drop-in
+//! replacements for the thread, lock, atomic and park primitives used by the scheduler
+//! (`verif::sync`), explicit schedule points (`verif::sched_point`) and read-only event hooks
+//! (`verif::event`). The file named by `GREVM_VERIF_INSIDE` is provided by the harness build.
+
+include!(env!("GREVM_VERIF_INSIDE"));
